@@ -9,6 +9,8 @@ J=3
 if [ "$1" = "-j" ]; then J=$2; shift 2; fi
 want=" $* "
 export GOFLAGS=-mod=mod GOPROXY=off
+# solver processes per check: the CPUs are divided among the J checks running side by side
+PROCS=$(( $(nproc) / J )); [ $PROCS -lt 2 ] && PROCS=2; export PROCS
 run_one() {
   prop=$1; patch=$2
   s=$(mktemp -d "${TMPDIR:-/var/tmp}/govc_musthold.XXXXXX")
@@ -16,7 +18,7 @@ run_one() {
   if ! (cd "$s" && patch -p1 -s --no-backup-if-mismatch < "$patch" >/dev/null 2>&1); then
     echo "MUSTHOLD skipped $prop $patch (does not apply)"; rm -rf "$s"; return
   fi
-  out=$(GOVC_REPO="$s/rolling-shutter" GOVC_OUT="$s/out" GOVC_SELFTEST=1 timeout 1200 /verif/bin/govc check -prop "$prop" -tier quick 2>&1); code=$?
+  out=$(GOVC_REPO="$s/rolling-shutter" GOVC_OUT="$s/out" GOVC_SELFTEST=1 GOVC_PROCS=$PROCS timeout 2400 /verif/bin/govc check -prop "$prop" -tier quick 2>&1); code=$?
   if [ $code -eq 0 ] && ! echo "$out" | grep -q '^VIOLATION'; then echo "MUSTHOLD ok      $prop $patch $(echo "$out" | grep -c 'rename tolerance' | sed 's/^0$//; s/^[1-9].*/(rename tolerance used)/')"
   else echo "MUSTHOLD ALARM   $prop $patch (exit $code) :: $(echo "$out" | grep '^VIOLATION\|ENGINE' | sed 's/ replay=[^ ]*//' | head -3 | cut -c1-300 | tr '\n' ' ')"; fi
   rm -rf "$s"
